@@ -1255,7 +1255,8 @@ def check(prog, rep):
                 callees[t.name] = t
     c.recon_func = next((t for t in callees.values() if any(isinstance(x, ast.While) for x in t.own_nodes())), None)
     # crossable predicate: a callee returning booleans from (value, barriers)
-    c.cross_func = next((t for t in callees.values() if t is not c.recon_func and len(t.params) == 2 and
+    c.cross_func = next((t for t in callees.values() if t is not c.recon_func and len(t.params) >= 2 and
+                         any(isinstance(r, ast.Return) for r in t.own_nodes()) and
                          all(isinstance(r.value, ast.Constant) and isinstance(r.value.value, bool)
                              for r in t.own_nodes() if isinstance(r, ast.Return))), None)
     if c.cross_func is None:
